@@ -354,6 +354,21 @@ def tie(ctx):
     put = set()
     violations = []
     stats = collections.Counter()
+    # "a variant is only added if filtered reads support it, every carried variant has supporting reads": instances with
+    # a variant between the filter thresholds of the structure's copy count and of the copies its site really has
+    # (generator and clause shared with C15)
+    import c15
+    for j in range(200 if quick else 800):
+        dd = c15.gen_instance(r, pool[(7 * j + 3) % len(pool)])
+        try:
+            rr = run_real(c15.with_extras(dd, "base"))
+        except Exception as e:
+            violations.append({"why": f"estimate_minor raised {type(e).__name__}: {e}", "input": dd, "signature": "c04:crash"})
+            continue
+        stats["support_instances"] += 1
+        sw = c15.support_oracle(rr)
+        if sw:
+            violations.append({"why": sw[0], "input": dd, "signature": "c04:carried_without_support"})
     for d in descs:
         real = run_real(d)
         if real["gid"] not in put:
